@@ -207,8 +207,10 @@ inductive Role | tmp | final
 deriving DecidableEq, Repr
 
 /-- One call on the success path of a publishing function. `fsyncDir r`: `FsyncDir(filepath.Dir(r))`.
-    `extWrite r`: content written by a callee the extraction treats as opaque but which flushes what it
-    writes (SQLite checkpoint in `applyWALSegmentsV3`): modelled as `write; fsync`. -/
+    `extWrite r`: content written by a callee the extraction treats as opaque and which flushes what it
+    writes — if it writes at all (SQLite checkpoint in `applyWALSegmentsV3`; a WAL without a committed
+    frame makes it write and flush nothing). The trace of the step is `write; fsync`; the static scanner
+    must accept the step list for BOTH behaviours, so it does not let the step clear unflushed data. -/
 inductive Step
   | create (r : Role) | write (r : Role) | fsync (r : Role) | close (r : Role)
   | rename (a b : Role) | fsyncDir (r : Role) | remove (r : Role) | extWrite (r : Role) | ok
@@ -252,7 +254,7 @@ def scan (σ : Sym) : Step → Option Sym
   | .create .final => none
   | .write .tmp => some (if σ.tmpBound then { σ with dirty := true } else σ)
   | .write .final => none
-  | .extWrite .tmp => some (if σ.tmpBound then { σ with dirty := false } else σ)
+  | .extWrite .tmp => some σ   -- it may write nothing (then it flushes nothing): dirty stays dirty, clean stays clean
   | .extWrite .final => none
   | .fsync .tmp => some (if σ.tmpBound then { σ with dirty := false } else σ)
   | .fsync .final => some σ
